@@ -978,8 +978,9 @@ func (c *Ctx) ruleSignalNonFatal(rule string) {
 		if !ok || structOf(fa.X.Type()) == nil || structOf(fa.X.Type()).Obj().Name() != "ServerError" || fieldName(fa.X.Type(), fa.Field) != "StepFatal" {
 			return false
 		}
+		// anything but the constant false may be true (a flag computed from the message, say)
 		cst, ok := st.Val.(*ssa.Const)
-		return ok && cst.Value != nil && cst.Value.String() == "true"
+		return !(ok && cst.Value != nil && cst.Value.String() == "false")
 	}
 	n := 0
 	report := func(fn *ssa.Function, in ssa.Instruction) {
